@@ -1,4 +1,5 @@
 """C08 - cells are immutable values; derived objects are isolated snapshots."""
+import bs
 import cells
 import core
 
@@ -190,6 +191,18 @@ def run(ctx):
             k = t.split(":")[0]
             kinds[k] = kinds.get(k, 0) + 1
     ctx.extra["op_kinds"] = kinds
+
+    # generic oracles of harness/bs.py on the implementation: refused stores (capacity never exceeded; the operations of the
+    # heap model and the primitive writers leave no trace), over-reads through every consuming reader, views
+    for name, fn, cnt in (("refused-store", bs.refused_store_case, ctx.n(300, 3000)), ("over-read", bs.overread_case, ctx.n(150, 1500)),
+                          ("views", bs.views_case, ctx.n(20, 200)),
+                          ("shared-state", bs.shared_state_case, ctx.n(40, 400))):
+        for i in range(cnt):
+            r = core.call_impl(lambda _: fn(i), None)
+            if r != "ok":
+                ctx.fail(name + ":" + r.split(":")[0].split(" (")[0][:60], r, {"generic": name, "seed": i})
+                break
+        ctx.extra["generic_" + name.replace("-", "_") + "_cases"] = cnt
     # direct constructor routes and statelessness
     for name, fn in (("plain-bitarray", plain_bitarray_case), ("order-state", order_state_case), ("repeat", repeat_case),
                      ("option-history", option_history_case), ("vm-stack-inputs", vm_stack_case), ("hashmap-state", hashmap_state_case)):
@@ -333,6 +346,10 @@ def vm_stack_case(rng):
 
 def replay(ctx, obj):
     c = obj["case"]
+    if "generic" in c:
+        fn = {"refused-store": bs.refused_store_case, "over-read": bs.overread_case, "views": bs.views_case, "shared-state": bs.shared_state_case}[c["generic"]]
+        r = core.call_impl(lambda _: fn(c["seed"]), None)
+        return None if r == "ok" else r
     if "ops" in c:
         v, bad = run_history(c["ops"])
         return bad
